@@ -12,5 +12,6 @@ CONSTANTS
  AllowWith = TRUE
  AllowVars = FALSE
  MaxUses = 1
-INVARIANTS CaptureFree NoCollision PublicUnchanged NoReserved WithOwn Emit
+ RestoreOwn = FALSE
+INVARIANTS FlagAsMeant StackDepth CaptureFree NoCollision PublicUnchanged NoReserved WithOwn Emit
 CHECK_DEADLOCK FALSE
